@@ -412,9 +412,7 @@ def impl(case):
     if mode == "setter":
         import bibtexparser
         a = inp["arg"]
-        v = a["v"] if isinstance(a, dict) else a
-        if isinstance(a, dict) and a.get("t") == "none":
-            v = None
+        v = None if isinstance(a, dict) else a
         f = bibtexparser.BibtexFormat()
         before = f.value_column
         r = implutil.guarded(lambda: setattr(f, "value_column", v))
